@@ -396,6 +396,13 @@ func (l *Lexer) readString(delimiter byte) string {
 		if l.CurrentChar == delimiter {
 			break
 		}
+		if l.CurrentChar == '"' {
+			// strings are always printed between double quotes: a double quote
+			// inside a single-quoted string has to be escaped in the output
+			result.WriteByte('\\')
+			result.WriteByte('"')
+			continue
+		}
 		result.WriteByte(l.CurrentChar)
 	}
 	return result.String()
